@@ -1,6 +1,7 @@
 package main
 
 import (
+	"strconv"
 	"fmt"
 	"go/token"
 	"go/types"
@@ -13,7 +14,7 @@ import (
 func init() {
 	register("C19", &propDef{
 		Title: "No entry point panics, crashes or hangs on any input",
-		Rules: []func(*Checker){ruleC19Recursion, ruleC19Block, ruleC19Index, ruleC19Panics, ruleC19LibPanics, ruleC19NilField, ruleTraceCalls("C19.nilcall"), ruleAddrErrors("C19.errors"), ruleLockBalanced("C19.balanced"), ruleTracerNonNil("C19.tracer"), ruleRootHops("C19.hops"), ruleC05Resolve("C19.resolve")},
+		Rules: []func(*Checker){ruleC19Recursion, ruleC19Block, ruleC19Index, ruleC19Panics, ruleC19LibPanics, ruleC19NilField, ruleTraceCalls("C19.nilcall"), ruleAddrErrors("C19.errors"), ruleLockBalanced("C19.balanced"), ruleTracerNonNil("C19.tracer"), ruleRootHops("C19.hops"), ruleC05Resolve("C19.resolve"), ruleC19HostLabel, ruleFilesClosed("C19.closed")},
 		NotDecided: []string{
 			"total running time; panics inside libraries",
 			"explicit 'cannot happen' panics whose unreachability rests on library behaviour are inventoried (C19.panics) and their guards checked where structural, but not proved unreachable",
@@ -1301,4 +1302,81 @@ func checkSplitFirst(c *Checker, R string, fn *ssa.Function, panicBlock *ssa.Bas
 		})
 	}
 	c.check(n > 0 && bad == "", R, name, "package part is cut at the first //", p.Pos(lib.Pos()), fmt.Sprintf("%s looks for \"//\" with first-occurrence searches only (%d)", p.FuncName(splitter), n), "the splitter "+p.FuncName(splitter)+" locates the sub-path separator with strings."+bad+" (or not at all): the package part handed to "+shortCallee(fullName(calleeObj(lib)))+" can still contain a \"//\", the library reports a sub-directory, and the 'cannot happen' panic behind the call is reached by an address such as ns/name/sys//a//b")
+}
+
+// C19.hostlabel — a registry host with an over-long label is refused before
+// an address that would panic when printed is handed out.
+func ruleC19HostLabel(c *Checker) {
+	const R = "C19.hostlabel"
+	c.rule(R, "The registry-source parser splits the host name the library returned at \".\" (after cutting a port off at \":\") and, for every label, takes the error return when len(label) exceeds a constant of at most 63: the host type's display conversion panics for labels far longer than a DNS label can be, which the forward conversion lets through, and String() runs it. A split at anything but \".\" never sees a label boundary.", 3)
+	p := c.P
+	fn := p.Fn(addrPkg, "ParseRegistrySource")
+	if fn == nil {
+		c.anchorMissing(R, "ParseRegistrySource")
+		return
+	}
+	name := p.FuncName(fn)
+	var split *ssa.Call
+	for _, ci := range callsTo(fn, func(o *types.Func) bool { return isFunc(o, "strings", "Split") || isFunc(o, "strings", "FieldsFunc") }) {
+		if cl, ok := ci.(*ssa.Call); ok {
+			for w := range p.backSlice(cl.Call.Args[0], 0) {
+				if fa, ok := w.(*ssa.Field); ok && fieldOf(fa) != nil && fieldOf(fa).Name() == "Host" {
+					split = cl
+				}
+				if fa, ok := w.(*ssa.FieldAddr); ok && fieldOf(fa) != nil && fieldOf(fa).Name() == "Host" {
+					split = cl
+				}
+			}
+		}
+	}
+	if split == nil {
+		c.fail(R, name, "host split into labels", p.Pos(fn.Pos()), "the host name is not split into labels: an over-long label reaches the address, whose String() panics")
+		return
+	}
+	sep, _ := constString(split.Call.Args[1])
+	c.check(sep == ".", R, name, "host split at \".\"", p.Pos(split.Pos()), "strings.Split(host, \".\")", "the host name is split at "+strconv.Quote(sep)+", not at \".\": no label boundary is ever found, the length test sees single characters (or the whole name), and a 2000-character label is accepted — String() then panics")
+	for w := range p.backSlice(split.Call.Args[0], 0) {
+		if cl, ok := w.(*ssa.Call); ok && isFunc(calleeObj(cl), "strings", "Cut") {
+			k, _ := constString(cl.Call.Args[1])
+			c.check(k == ":", R, name, "port cut off at \":\"", p.Pos(cl.Pos()), "strings.Cut(host, \":\")", "the port is cut off at "+strconv.Quote(k)+" instead of \":\": with an empty separator the host name examined is empty and no label is ever measured")
+		}
+	}
+	// the length test
+	okLen := false
+	for _, b := range fn.Blocks {
+		ifi, ok := b.Instrs[len(b.Instrs)-1].(*ssa.If)
+		if !ok {
+			continue
+		}
+		cnd, neg := stripNot(ifi.Cond)
+		bo, ok := cnd.(*ssa.BinOp)
+		if !ok || (bo.Op != token.GTR && bo.Op != token.GEQ) {
+			continue
+		}
+		lc, ok := bo.X.(*ssa.Call)
+		if !ok {
+			continue
+		}
+		if bi, ok := lc.Call.Value.(*ssa.Builtin); !ok || bi.Name() != "len" {
+			continue
+		}
+		fromSplit := false
+		for w := range p.backSlice(lc.Call.Args[0], 0) {
+			if w == ssa.Value(split) {
+				fromSplit = true
+			}
+		}
+		k, isC := constInt(bo.Y)
+		if !fromSplit || !isC || k > 64 {
+			continue
+		}
+		succ := 0
+		if neg {
+			succ = 1
+		}
+		if rej, _ := returnsNonNilErrorFrom(b.Succs[succ]); rej {
+			okLen = true
+		}
+	}
+	c.check(okLen, R, name, "over-long label refused", p.Pos(split.Pos()), "len(label) > 63 leads to an error return", "no label of the host name is measured against the 63-byte limit with an error return behind it")
 }
